@@ -93,39 +93,39 @@ def ddBody : Stmt := match draw10 with | .loop _ b _ => b | _ => .skip
 def ddCond : Expr := match draw10 with | .loop c _ _ => c | _ => .none
 theorem draw10_eq : draw10 = .loop ddCond ddBody .skip := rfl
 
-def ddRho (i h : Nat) (ah' : Int) (ρ : List (String × Int)) : List (String × Int) :=
+def ddRho (i y h : Nat) (ah' : Int) (ρ : List (String × Int)) : List (String × Int) :=
   ("v2", ah') :: ("v10", 0) :: ("v9.Widget", (i : Int)) :: ("v9.Size.Height", (h : Int)) :: ("v8", 1) ::
-  ("v3", ((i + 1 : Nat) : Int)) :: ("v7.Draw.Widget", (i : Int)) :: ("v7.Draw.Size.Height", (h : Int)) :: ("v7", 1) :: ρ
+  ("v3", (y : Int)) :: ("v7.Draw.Widget", (i : Int)) :: ("v7.Draw.Size.Height", (h : Int)) :: ("v7", 1) :: ρ
 
 theorem dd_cond (R : Ro) (m : M) : evB R m ddCond = some true := by
   xs [ddCond, draw10]
 
-theorem dd_body_nil (R : Ro) (hs : List Nat) (hb : R.b = builder hs) (st : St) (acc : List Child) (ρ : List (String × Int))
-    (tag : String) (F : Nat) (i : Nat) (hv3 : lookup ρ "v3" = some ↑i) (hbt : builder hs i = none) :
+theorem dd_body_nil (R : Ro) (st : St) (acc : List Child) (ρ : List (String × Int))
+    (tag : String) (F : Nat) (i : Nat) (hv3 : lookup ρ "v3" = some ↑i) (hbt : R.b i = none) :
     exec R ddBody F ⟨st, acc, ρ, ["v3"], tag⟩ = .ok (⟨st, acc, ("v7", 0) :: ρ, ["v3"], tag⟩, .brk) := by
-  xs [ddBody, draw10, hb, hv3, hbt]
+  xs [ddBody, draw10, hv3, hbt]
 
-theorem dd_body (R : Ro) (hs : List Nat) (hb : R.b = builder hs) (st : St) (acc : List Child) (ρ : List (String × Int))
-    (tag : String) (F : Nat) (ah : Int) (i h : Nat) (hv2 : lookup ρ "v2" = some ah) (hv3 : lookup ρ "v3" = some ↑i)
-    (hbt : builder hs i = some h) (hi : uaddI ↑i 1 = ↑(i + 1)) :
+theorem dd_body (R : Ro) (st : St) (acc : List Child) (ρ : List (String × Int))
+    (tag : String) (F : Nat) (ah : Int) (i y h : Nat) (hv2 : lookup ρ "v2" = some ah) (hv3 : lookup ρ "v3" = some ↑i)
+    (hbt : R.b i = some h) (hi : uaddI ↑i 1 = ↑y) :
     exec R ddBody F ⟨st, acc, ρ, ["v3"], tag⟩ =
-      .ok (⟨st, acc ++ [{ idx := i, row := ah, height := h }], ddRho i h (ah + (↑h + R.gap)) ρ, ["v3"], tag⟩,
-        if st.wantsCursor = true ∧ i + 1 ≤ st.cursor then .cont else if ah + (↑h + R.gap) ≥ R.H then .brk else .norm) := by
-  by_cases hw : st.wantsCursor = true ∧ i + 1 ≤ st.cursor
-  · have hc' : (i : Int) + 1 ≤ st.cursor := by omega
-    xs [ddBody, draw10, hb, hv2, hv3, hbt, hi, hw, hw.1, hw.2, hc', ddRho]
+      .ok (⟨st, acc ++ [{ idx := i, row := ah, height := h }], ddRho i y h (ah + (↑h + R.gap)) ρ, ["v3"], tag⟩,
+        if st.wantsCursor = true ∧ y ≤ st.cursor then .cont else if ah + (↑h + R.gap) ≥ R.H then .brk else .norm) := by
+  by_cases hw : st.wantsCursor = true ∧ y ≤ st.cursor
+  · have hc' : (y : Int) ≤ st.cursor := by omega
+    xs [ddBody, draw10, hv2, hv3, hbt, hi, hw, hw.1, hw.2, hc', ddRho]
   · by_cases hH : ah + (↑h + R.gap) ≥ R.H
     · by_cases hw1 : st.wantsCursor = true
-      · have hc : ¬ (i + 1 ≤ st.cursor) := fun h => hw ⟨hw1, h⟩
-        have hc' : ¬ ((i : Int) + 1 ≤ st.cursor) := by omega
-        xs [ddBody, draw10, hb, hv2, hv3, hbt, hi, hw, hw1, hc, hc', hH, ddRho]
-      · xs [ddBody, draw10, hb, hv2, hv3, hbt, hi, hw, hw1, hH, ddRho]
+      · have hc : ¬ (y ≤ st.cursor) := fun h => hw ⟨hw1, h⟩
+        have hc' : ¬ ((y : Int) ≤ st.cursor) := by omega
+        xs [ddBody, draw10, hv2, hv3, hbt, hi, hw, hw1, hc, hc', hH, ddRho]
+      · xs [ddBody, draw10, hv2, hv3, hbt, hi, hw, hw1, hH, ddRho]
     · have hH' : ¬ ((R.H : Int) ≤ ah + (↑h + R.gap)) := hH
       by_cases hw1 : st.wantsCursor = true
-      · have hc : ¬ (i + 1 ≤ st.cursor) := fun h => hw ⟨hw1, h⟩
-        have hc' : ¬ ((i : Int) + 1 ≤ st.cursor) := by omega
-        xs [ddBody, draw10, hb, hv2, hv3, hbt, hi, hw, hw1, hc, hc', hH, hH', ddRho]
-      · xs [ddBody, draw10, hb, hv2, hv3, hbt, hi, hw, hw1, hH, hH', ddRho]
+      · have hc : ¬ (y ≤ st.cursor) := fun h => hw ⟨hw1, h⟩
+        have hc' : ¬ ((y : Int) ≤ st.cursor) := by omega
+        xs [ddBody, draw10, hv2, hv3, hbt, hi, hw, hw1, hc, hc', hH, hH', ddRho]
+      · xs [ddBody, draw10, hv2, hv3, hbt, hi, hw, hw1, hH, hH', ddRho]
 
 theorem dd_loop (R : Ro) (hs : List Nat) (hb : R.b = builder hs) (st : St) (tag : String) :
     ∀ (rest : List Nat) (i : Nat) (ah : Int) (acc : List Child) (ρ : List (String × Int)) (F : Nat),
@@ -142,7 +142,7 @@ theorem dd_loop (R : Ro) (hs : List Nat) (hb : R.b = builder hs) (st : St) (tag 
       unfold builder
       have : hs.length ≤ i := List.drop_eq_nil_iff.mp hd.symm
       simp [this]
-    rw [loopN, dd_cond, dd_body_nil R hs hb st acc ρ tag F' i hv3 hbt]
+    rw [loopN, dd_cond, dd_body_nil R st acc ρ tag F' i hv3 (by rw [hb]; exact hbt)]
     exact ⟨_, rfl⟩
   | cons h rest ih =>
     intro i ah acc ρ F hd hlt hF hv2 hv3
@@ -159,12 +159,12 @@ theorem dd_loop (R : Ro) (hs : List Nat) (hb : R.b = builder hs) (st : St) (tag 
       simp only [List.length_cons] at hlt
       unfold uaddI toUintI; rw [U_val]; omega
     simp only [List.length_cons] at hlt hF
-    rw [loopN, dd_cond, dd_body R hs hb st acc ρ tag F' ah i h hv2 hv3 hbt hi]
+    rw [loopN, dd_cond, dd_body R st acc ρ tag F' ah i (i + 1) h hv2 hv3 (by rw [hb]; exact hbt) hi]
     unfold drawDown
     have hassoc : ah + (h : Int) + R.gap = ah + (↑h + R.gap) := Int.add_assoc _ _ _
     simp only [hassoc]
     obtain ⟨ρ', hr⟩ := ih (i + 1) (ah + (↑h + R.gap)) (acc ++ [{ idx := i, row := ah, height := h }])
-      (ddRho i h (ah + (↑h + R.gap)) ρ) F' hd' (by omega) (by omega) (by simp [ddRho, lookup]) (by simp [ddRho, lookup])
+      (ddRho i (i + 1) h (ah + (↑h + R.gap)) ρ) F' hd' (by omega) (by omega) (by simp [ddRho, lookup]) (by simp [ddRho, lookup])
     by_cases hw : st.wantsCursor = true ∧ i + 1 ≤ st.cursor
     · simp only [if_pos hw, exec_skip]
       exact ⟨ρ', hr⟩
@@ -773,5 +773,70 @@ theorem draw_exec (hs : List Nat) (cfg : Cfg) (s : St) (W H F : Nat)
       simp only []
       obtain ⟨vs, h17⟩ := d17_exec R F ⟨⟨c4, (retop cfg.gap cs2 0 (t4, o4)).1, (retop cfg.gap cs2 0 (t4, o4)).2, p4, w4⟩, cs2, ρ8, us7, ""⟩
       rw [h17]
+
+/-! #### an endless Builder of zero-height widgets: `Draw` never returns -/
+
+theorem hang_loop (R : Ro) (hb : ∀ i, R.b i = some 0) (hgap : R.gap = 0) (hH : 1 ≤ R.H) (st : St) (hw : st.wantsCursor = false)
+    (tag : String) : ∀ (F : Nat) (acc : List Child) (ρ : List (String × Int)) (i : Nat),
+      lookup ρ "v2" = some 0 → lookup ρ "v3" = some ↑i →
+      loopN (fun m => evB R m ddCond) (exec R ddBody) (exec R .skip) F ⟨st, acc, ρ, ["v3"], tag⟩ = .error .oof := by
+  intro F
+  induction F with
+  | zero => intro acc ρ i _ _; rfl
+  | succ F ih =>
+    intro acc ρ i hv2 hv3
+    have hbody := dd_body R st acc ρ tag F 0 i (uadd i 1) 0 hv2 hv3 (hb i) (toUintI_add1 i)
+    have hnw : ¬ (st.wantsCursor = true ∧ uadd i 1 ≤ st.cursor) := by rw [hw]; simp
+    have hnH : ¬ ((0 : Int) + (((0 : Nat) : Int) + R.gap) ≥ R.H) := by rw [hgap]; omega
+    rw [if_neg hnw, if_neg hnH] at hbody
+    rw [loopN, dd_cond, hbody]
+    simp only [exec_skip]
+    exact ih _ _ (uadd i 1) (by simp [ddRho, lookup, hgap]) (by simp [ddRho, lookup])
+
+theorem cl_cond0 (R : Ro) (m : M) (h0 : m.st.top = 0) : evB R m clCond = some false := by
+  xs [clCond, draw2, h0]
+
+theorem draw_hang (W H F : Nat) (hH : 1 ≤ H) (h1 : H ≠ 65535) (h2 : W ≠ 65535) :
+    runDraw expBodies (fun _ => some 0) ⟨0, false⟩ init W H F = .error .oof := by
+  have hRo : runDraw expBodies (fun _ => some 0) ⟨0, false⟩ init W H F =
+      (match exec { roBase (fun _ => some 0) ⟨0, false⟩ W H with
+          call := fun n => if n = "d.insertChildren" then some (insertCallee expBodies (roBase (fun _ => some 0) ⟨0, false⟩ W H)) else Option.none }
+        (seqOf drawParts) F ⟨init, [], [], [], ""⟩ with
+       | .error e => .error e
+       | .ok (m, _) => .ok (m.st, m.cs)) := rfl
+  rw [hRo]
+  generalize hR : ({ roBase (fun _ => some 0) ⟨0, false⟩ W H with
+          call := fun n => if n = "d.insertChildren" then some (insertCallee expBodies (roBase (fun _ => some 0) ⟨0, false⟩ W H)) else Option.none } : Ro) = R
+  have hb : ∀ i, R.b i = some 0 := by intro i; rw [← hR]; rfl
+  have hgap : R.gap = 0 := by rw [← hR]; rfl
+  have hRH : R.H = H := by rw [← hR]; rfl
+  have hRW : R.W = W := by rw [← hR]; rfl
+  have hdc : R.drawCursor = false := by rw [← hR]; rfl
+  have hub' : ¬ (R.H = 65535 ∨ R.W = 65535) := by rw [hRH, hRW]; omega
+  unfold drawParts
+  rw [seqOf_cons, d0_exec, if_neg hub']
+  simp only []
+  rw [seqOf_cons, d1_exec]
+  simp only []
+  rw [seqOf_cons, draw2_eq, exec_loop]
+  cases F with
+  | zero => rfl
+  | succ F' =>
+    rw [loopN, cl_cond0 R _ rfl]
+    simp only []
+    obtain ⟨ρ1, hp, hp2, hp3⟩ := pro_exec R init [] "" (F' + 1) [draw7, draw8, draw9, draw10, draw11, draw12, draw13, draw14, draw15, draw16, draw17]
+    rw [hp]
+    have hpro : prologue init = (0, init) := by decide
+    rw [hpro] at hp2 hp3 ⊢
+    simp only [] at hp2 hp3 ⊢
+    have h7 : exec R draw7 (F' + 1) ⟨init, [], ρ1, ["v3"], ""⟩ = .ok (⟨init, [], ρ1, ["v3"], ""⟩, .norm) := by
+      xs [draw7, hp2]
+    rw [seqOf_cons, h7]
+    simp only []
+    obtain ⟨ρ3, h89, h89a, h89b⟩ := d89_exec R init [] ρ1 "" (F' + 1) [draw10, draw11, draw12, draw13, draw14, draw15, draw16, draw17]
+    rw [h89, seqOf_cons, draw10_eq, exec_loop]
+    rw [hp2] at h89a
+    rw [hp3] at h89b
+    rw [hang_loop R hb hgap (by omega) init rfl "" (F' + 1) [] ρ3 0 h89a h89b]
 
 end VaxisModel.Lemmas.DynExec
